@@ -420,6 +420,23 @@ class Sh:
         for a in elems:
             for b in ["7", "str()", "null", "tab(1,1)", 'tup(1)']:
                 self._ctor("c = tup(%s, %s);" % (a, b))
+        # an element expression whose value changes between its n evaluations (the expression has one static type, possibly opaque)
+        vary = ('function vt(k) return tuple is begin if k % 2 == 0 then return tup(1, "a"); end if; return tup("a", 1); end; '
+                'function vu(k) return undefined is begin if k % 2 == 0 then return 1; end if; return "s"; end; '
+                'function vn(k) return tuple is begin if k % 2 == 0 then return tup(1, "a"); end if; return tup(1, "a", 2); end; '
+                'function vl(k) return table is begin if k % 2 == 0 then return tab(1, 1); end if; return tab(1, tab(1, 1)); end; v = tab(0, 0); ')
+        for f in ("vt", "vu", "vn", "vl"):
+            for n in (2, 3, 4):
+                self._ctor(vary + "c = tab(%d, %s(v.concat(1).count()));" % (n, f))
+                self._ctor(vary + "c = tab(0, %s(0)); for i in 1 to %d loop c.concat(%s(i)); end loop;" % (f, n, f))
+                self._ctor(vary + "c = tab(%d, %s(0)); c.put(1, %s(1));" % (n, f, f))
+        # copies of tables of tuples / tables keep their structure: nesting and concatenating a copy
+        for src in ("tr", "tt", "ur", "ut"):
+            self._ctor("u9 = %s; c = tab(1, u9);" % src)
+            self._ctor("u9 = %s; c = tab(1, u9); c.concat(%s); c.concat(u9);" % (src, src))
+            self._ctor("u9 = %s; c = tab(0, %s); c.concat(u9); c.concat(%s);" % (src, src, src))
+            self._ctor("u9 = %s; c = u9; c.concat(%s.at(0)); c.insert(0, u9);" % (src, src))
+            self._ctor("function cp(x) return table is begin return x; end; c = tab(1, cp(%s)); c.concat(%s);" % (src, src))
 
     def _ctor(self, text):
         ops = ["new A 0", "parse A PRE %s" % hx(SETUP), "run A PRE 100000", "parse A P %s" % hx(text), "run A P 20000", "get A 43"]
